@@ -120,6 +120,31 @@ def gen_seq(r, tier):
                 ops.append("r" + hexs(payload(r, r.randrange(0, 8))))
         tmo = r.choice(["l", "l", "z"])
         cases.append(("mix", "frag_seq raw %s %s" % (tmo, ",".join(ops)), dict(m=m, tmo=tmo)))
+    # a medium lifetime with explicit waits: at a timer call some queued frames have expired and others have not, so
+    # that which end of the deadline queue is discarded matters
+    for _ in range(60 if tier == "thorough" else 24):
+        nf = r.randrange(2, 5)
+        frames = []
+        for j in range(nf):
+            k = r.randrange(2, 5)
+            idv = 100 + j
+            bodies = [payload(r, r.randrange(1, 4)) for _ in range(k)]
+            frames.append([frag(idv, k, i, bodies[i]) for i in range(k)])
+        ops = []
+        cut = r.randrange(1, nf)                      # frames before `cut` start early and expire
+        for fr in frames[:cut]:
+            ops.append("r" + hexs(fr[0]))
+        ops.append("w")
+        for fr in frames[cut:]:
+            ops.append("r" + hexs(fr[0]))
+        ops.append("t")
+        rest = [x for fr in frames for x in fr[1:]]
+        r.shuffle(rest)
+        ops += ["r" + hexs(x) for x in rest]
+        if r.random() < 0.5:
+            ops += ["w", "t", "r" + hexs(frames[0][0])]
+        fresh = sorted(b"".join(f[4:] for f in fr).hex() for fr in frames[cut:])
+        cases.append(("mix-medium", "frag_seq raw m " + ",".join(ops), dict(m=nf, tmo="m", fresh=fresh, cut=cut)))
     return cases
 
 
@@ -179,6 +204,13 @@ def oracle(kind, line, out, meta):
                 return False, "frame delivered %d times for %d complete copies" % (len(em), covers), ()
             if len(em) > 1:
                 return False, "a second complete copy of the fragments delivers the frame again", ("C11-dup-cover",)
+        return True, "", ()
+    if kind == "mix-medium":
+        # frames whose first fragment arrived before the wait have expired at the timer call and are discarded; the
+        # frames started after the wait are within their lifetime: each is delivered exactly once, unmodified
+        em = sorted(o[1:] for o in out.split(",") if o.startswith("E"))
+        if em != meta["fresh"]:
+            return False, "frames within their lifetime when the timer ran: %d, delivered: %d (%s)" % (len(meta["fresh"]), len(em), "a frame that had not expired was discarded" if len(em) < len(meta["fresh"]) else "an expired or foreign frame was delivered"), ()
         return True, "", ()
     return True, "", ()
 
